@@ -7,6 +7,9 @@ CHECKS = {
  "C01": "Every decoding entry point is proved panic-free (index, slice, nil, division duties at every site), terminating (loop variant) and to satisfy the attribute-view postcondition (each value a view of exactly the declared bytes, in wire order, inside the declared body) for all byte strings, lengths and capacities, in both tag sets. Not covered: the allocation-size clause.",
  "C02": "Decode's success is proved equivalent (iff) to the RFC 5389 acceptance predicate and its struct fields equal to the reference parse, for every input, unbounded; Get/Contains proved against a least-index specification. Not covered yet: ForEach.",
  "C07": "Every typed getter and both checkers are proved panic-free for every attribute length and buffer capacity (incl. cap==len), never to re-slice an attribute value beyond its length (locality duty), and to assign nothing but their destination (frame), with the message's visible bytes and length proved restored by MessageIntegrity.Check; both tag sets.",
+ "C05": "FingerprintAttr.AddTo is proved to append exactly CRC-32(all preceding bytes with the final header length) XOR 0x5354554e (crc32 an uninterpreted function of the byte sequence, with sequence extensionality), and Check is proved to succeed iff the first FINGERPRINT value is 4 bytes and equals that value over Raw[:len-8]; both tag sets. The bit-flip/burst corollary rests on the assumed detection property of the CRC-32 polynomial (not about this code).",
+ "C06": "Every typed setter is proved to append exactly the RFC 5389 wire bytes as a function of its argument (family codes, port and address XOR-ed with cookie and transaction ID via xor lemmas proved over bit-vectors, class/number split, 16-bit UNKNOWN-ATTRIBUTES entries) and every getter to return the RFC decoding function of the value bytes, for all values; the add-then-decode-then-get composition itself is argued from these contracts, not machine-checked.",
+ "C09": "Each setter is proved to return an error iff the value is unrepresentable (literal limits 513/763/763/763, reason 763, IP length not 4/16, missing default reason, FINGERPRINT present) and, on error, to leave raw bytes, length and attribute list unchanged (frame + Unchanged postcondition); Build is proved, over a ghost record of setter outcomes, to return the first failing setter's error and call no later setter; both tag sets.",
  "C19": "MessageType.Value and ReadValue are proved equal to the RFC 5389 figure-3 layout written bit by bit, over 16-bit vectors (the complete domain), and the two spec functions are proved mutually inverse.",
 }
 NA_DEFAULT = "check not built yet (work in progress; see DESIGN.md section 5 for the plan)"
